@@ -1,7 +1,7 @@
 (* C01 -- RF write/read round-trip fidelity: the writer half.
    (The reader half -- read = maximal runs of the stored map -- is Properties/C08.v.) *)
 From Coq Require Import ZArith List Bool.
-From DRF Require Import Model.WriterCore Proofs.WriterInv.
+From DRF Require Import Model.WriterCore Proofs.WriterInv Proofs.WriterInvU.
 Import ListNotations.
 Local Open Scope Z_scope.
 
@@ -26,3 +26,12 @@ Theorem C01_one_call_chunked : forall c st g vec, vcfg c -> c_chunk c = true -> 
            then nth_error vec (Z.to_nat (k - c_start c - g)) else lookup_st st k.
 Proof. exact write_one_chunked. Qed.
 Print Assumptions C01_one_call_chunked.
+
+(* the same for the un-chunked continuous layout (continuous mode without compression/checksum),
+   where single-block calls are the only calls the C library accepts: written samples are stored at
+   their indices with their values; everything else that is exposed is the documented fill *)
+Theorem C01_writer_refines_unchunked : forall c ops, vcfg c -> c_chunk c = false -> c_cont c = true ->
+  Forall (fun op => 0 <= fst op) ops ->
+  refines_u c (fold_left (model_step c) ops init_state) (fold_left (spec_step c) ops spec_init).
+Proof. exact writer_refines_unchunked. Qed.
+Print Assumptions C01_writer_refines_unchunked.
